@@ -19,7 +19,7 @@ for pid in props:
         "engine": "lean4-model+correspondence",
         "level_claimed": {"category": "proof", "text": c["text"], "design_ref": c.get("design_ref", "DESIGN.md section 6 (%s)" % pid)},
         "level_note": c["note"],
-        "technique": c.get("technique", "Lean 4 theorems about a hand-written model of the code, tied to /repo by a differential correspondence check (Rust harness vs compiled Lean driver) and a constants translator"),
+        "technique": c.get("technique", "Lean 4 theorems about a hand-written model of the code, tied to /repo on every run by (1) a source translator (constants and 26 leaf functions regenerated from the Rust source, agreement theorems re-checked) and (2) a differential correspondence check (Rust harness vs compiled Lean driver)"),
     })
 man = {
     "version": 1,
@@ -32,9 +32,9 @@ man = {
         "add_only": True,
     },
     "engines": [{
-        "name": "lean4-model+correspondence", "path": "lean/ (Lake project JsonbModel: model, spec, proofs, driver jvmodel), harness/ (Rust differential harness jvh), check (driver)",
+        "name": "lean4-model+correspondence", "path": "lean/ (Lake project JsonbModel: model, spec, proofs, driver jvmodel), tools/rs2lean.py + tools/gen_constants.py (source translators), harness/ (Rust differential harness jvh), check (driver)",
         "serves_properties": [c["property_id"] for c in checks],
-        "kind_free_text": "machine-checked proof in Lean 4 about a hand-written executable model; model tied to the source by regenerated constants and a line-protocol differential check",
+        "kind_free_text": "machine-checked proof in Lean 4 about a hand-written executable model; model tied to the source by a Rust-to-Lean translator for constants and leaf functions (agreement theorems re-checked every run) and by a line-protocol differential check",
     }],
     "checks": checks,
     "not_applicable": [{"property_id": p, "reason": M.NOT_YET.get(p, "not claimed yet: model and theorems for this property are still being built (see DESIGN.md section 9 build order); nothing about the technique prevents it")} for p in props if p not in M.CLAIMED],
